@@ -18,7 +18,9 @@ Registered ==
 \* representative statuses for the full product (every status is covered by the sweep below)
 RepStatus == {0, 99, 100, 199, 200, 204, 209, 299, 301, 304, 399, 400, 404, 418, 499, 500, 503, 599, 600, 999, 65535}
 
-CType  == {"none", "json", "text_utf8", "text_latin1", "text_unknown_charset", "binary"}
+\* "malformed": a content-type value that is not type/subtype ("json", "", two types in one value): it is a
+\* header like any other (it must reach the app as sent) and says nothing about the charset
+CType  == {"none", "json", "text_utf8", "text_latin1", "text_unknown_charset", "binary", "malformed"}
 \* charsets that are not ASCII-compatible (UTF-16, ISO-2022-JP) or that the WHATWG standard maps to the
 \* "replacement" decoder (always an error for a non-empty body); their bodies are encoding specific
 CTypeX == {"text_utf16le", "text_2022jp", "text_replacement"}
@@ -40,7 +42,7 @@ Cases ==
 
 \* is the body decodable as a string under the charset the content type claims
 StringOk(c) ==
-  CASE c.ctype \in {"none", "json", "text_utf8", "binary"} -> c.body # "invalid_utf8"
+  CASE c.ctype \in {"none", "json", "text_utf8", "binary", "malformed"} -> c.body # "invalid_utf8"
     [] c.ctype = "text_latin1" -> TRUE                 \* every byte string is valid windows-1252
     [] c.ctype = "text_unknown_charset" -> FALSE
     [] c.ctype \in {"text_utf16le", "text_2022jp"} -> TRUE     \* (the pools hold well-formed bodies)
